@@ -15,6 +15,7 @@ type Cfg struct {
 	RBuf     uint64  `json:"rbuf,omitempty"`
 	WBuf     uint64  `json:"wbuf,omitempty"`
 	Async    bool    `json:"async,omitempty"`
+	Direct   bool    `json:"direct,omitempty"`   // EnableDirectIOWAL
 	Defaults bool    `json:"defaults,omitempty"` // library defaults for everything (ticker included)
 }
 
